@@ -209,4 +209,25 @@ def GScr.inv (s : GScr) : Bool :=
   decide (s.cx < s.w) && decide (s.cy < s.h) && decide (s.sx < s.w) && decide (s.sy < s.h) &&
   decide (s.top ≤ s.bot) && decide (s.bot < s.h)
 
+/-! ### what the accessors read from the arrays (`Line`, `renderLineANSI`) -/
+
+/-- the rune array agrees with the text array: a continuation cell holds rune 0, any other cell
+    the rune whose encoding is its text (rune mode: one rune per cell) -/
+def GCell.okCh (c : GCell) : Bool :=
+  if c.cont then c.ch == 0 else encodeRune c.ch == c.text && c.ch != 0
+
+/-- `Line(y)`: the rune array with 0 (continuation cells) shown as a blank -/
+def GRow.line (r : GRow) : Bytes :=
+  r.flatMap fun c => if c.ch = 0 then [0x20] else encodeRune c.ch
+
+/-- `renderLineANSI(y)`: for every maximal stretch of cells with equal attributes the complete
+    escape, then the runes that are not 0 -/
+def GRow.ansiAux : Option Style → GRow → Bytes
+  | _, [] => []
+  | prev, c :: rest =>
+    (if prev = some c.sty then [] else c.sty.ansiEscape) ++
+    (if c.ch = 0 then [] else encodeRune c.ch) ++ GRow.ansiAux (some c.sty) rest
+
+def GRow.ansi (r : GRow) : Bytes := GRow.ansiAux none r
+
 end TM
